@@ -5,7 +5,7 @@ from harness.render import sym_tree, render
 from harness.wire import SHAPES
 
 PID = "C08"
-NAMES = ["A", "B", "CD"]
+NAMES = ["A", "AB", "B"]          # one name contains the others: an end tag must equal the open tag, not resemble it
 
 
 def parse(ctx, text):
